@@ -51,6 +51,9 @@ def cases(tier, rng):
         l, d = tail_chain(ids, el, last)
         for ts in ([l], [l, lst([a, b])], [a, l], [l, l]):
             out.append(("(bip %s (%s %s) %s)" % (name, " ".join(ts), OUT, ss_from(d)), "random"))
+    l300 = lst([integer(k) for k in range(300)])
+    for ts in ([l300], [l300, lst([a])], [a, l300, l300]):
+        out.append(("(bip %s (%s %s) (ss))" % (name, " ".join(ts), OUT), "random"))
     out.append(("(bip %s (%s) (ss))" % (name, OUT), "malformed"))
     out.append(("(bip %s () (ss))" % name, "malformed"))
     out.append(("(bip %s none (ss))" % name, "malformed"))
